@@ -333,10 +333,12 @@ class PrimitiveEquationsSpecs:
     """Rescales and casts the given non-dimensional value to timedelta64."""
     base_unit = 's'  # return value is rounded down to nearest base_unit
     dt = self.scale.dimensionalize(value, units(base_unit)).m
+    # Scaling back and forth leaves floating point noise (e.g., 27 seconds come
+    # back as 26.999999999999996), which has to be removed before truncating.
     if isinstance(dt, np.ndarray):
-      return dt.astype(f'timedelta64[{base_unit}]')
+      return np.asarray(np.round(dt, 6)).astype(f'timedelta64[{base_unit}]')
     else:
-      return np.timedelta64(int(dt), base_unit)
+      return np.timedelta64(int(round(float(dt), 6)), base_unit)
 
   @classmethod
   def from_si(
